@@ -755,6 +755,8 @@ def explore(world, run_path, max_paths=4000):
             # result of an unmodelled library call used as a string / number): this path is outside the subset
             import traceback
             where = traceback.extract_tb(e.__traceback__)[-1]
+            if os.environ.get('PYVC_TRACE_OOS'):
+                traceback.print_exception(type(e), e, e.__traceback__)
             res = PathResult('oos', 'the interpreter cannot represent a value on this path (%s: %s at %s:%d)' % (type(e).__name__, str(e)[:120], where.filename.split('/')[-1], where.lineno), ctx)
         except OutOfSubset as e:
             res = PathResult('oos', str(e), ctx)
